@@ -183,7 +183,8 @@ def use_private_coq(pid):
     os.makedirs(mirror, exist_ok=True)
     cmd = ["rsync", "-a", "--delete", "--exclude", ".lia.cache", "--exclude", ".nia.cache"]
     if not first:
-        for pat in ("*.vo", "*.vos", "*.vok", "*.glob", ".*.aux", "Makefile", "Makefile.conf", ".Makefile.d", "_CoqProject"):
+        # Gen/ belongs to the translators, which write into the mirror on every run (content-addressed)
+        for pat in ("*.vo", "*.vos", "*.vok", "*.glob", ".*.aux", "Makefile", "Makefile.conf", ".Makefile.d", "_CoqProject", "/Gen/"):
             cmd += ["--exclude", pat]
     with FLock("coq"):          # never copy while `--setup` (or an old-style run) is compiling in coq/
         subprocess.run(cmd + [src + "/", mirror + "/"], check=True)
